@@ -191,7 +191,27 @@ def stale():
     return u
 
 
-UNIVERSES = {"quick": quick, "small": small, "u1": u1, "deep": deep, "retarget": retarget, "stale": stale}
+def cpalt():
+    """Checkpoint failure and what follows: a VALID header that is not the checkpoint arrives at the
+    second checkpoint's height (the store is rolled back to the first checkpoint without a new tip being
+    published), then the same range is replayed - also inside a message that is abandoned half-way
+    (invalid last header) - and extended.  Small, so four messages are explored."""
+    H = [
+        {"id": 0, "parent": -1, "work": 2},
+        {"id": 1, "parent": 0, "work": 2},           # checkpoint at height 1
+        {"id": 2, "parent": 1, "work": 1},
+        {"id": 3, "parent": 2, "work": 1},           # checkpoint at height 3
+        {"id": 4, "parent": 3, "work": 1},
+        {"id": 5, "parent": 2, "work": 1},           # valid, at the checkpoint height, not the checkpoint
+        {"id": 6, "parent": 2, "work": 1, "kind": "badpow"},
+        {"id": 7, "parent": 1, "work": 1, "kind": "badbits"},
+    ]
+    B = [[2], [3], [4], [5], [6], [2, 3], [2, 5], [2, 6], [1, 2], [3, 4], [2, 3, 4], [1, 2, 6], [7], [1, 7]]
+    return _mk(H, {1: 1, 3: 3}, 2, [0, 4], [3], 2, 3, batches=B,
+               init_chains=[(0, 1), (0, 1, 2), (0, 1, 2, 3)])
+
+
+UNIVERSES = {"cpalt": cpalt, "quick": quick, "small": small, "u1": u1, "deep": deep, "retarget": retarget, "stale": stale}
 
 
 def tla(u):
